@@ -2,6 +2,8 @@
 (* Seeds from the Syntax catalogue, token alphabet, emission.                 *)
 EXTENDS Totality, Json
 
+CONSTANT Kind   \* "ledger": the text is a ledger file; "pricedb": the text is a price database loaded next to a fixed ledger
+
 S == INSTANCE MCSyntax WITH Scenario <- "features", doc <- [entries |-> <<>>, style |-> <<>>, tag |-> ""]
 
 CRLF == [S!Base EXCEPT !.nl = "\r\n"]
@@ -14,12 +16,26 @@ InsertSeedTexts == {S!Render(<<e>>, S!Base) : e \in S!HeaderShapes} \cup {S!Rend
                    \cup {S!Render(<<S!Txn(S!D1, S!D2, "*", "c", "P", <<S!MComment("n")>>, <<p, S!POmit(S!AcctA)>>)>>, S!Base) :
                            p \in {q \in S!PostingShapes : q.lot.price # S!None \/ q.cost # S!None \/ q.metadata # <<>> \/ (q.amount # S!None /\ q.amount.t = "paren")}}
 
+\* price databases: `P date commodity amount` lines in both date styles, grouped and plain numbers, blank
+\* lines between entries, CRLF ends, a missing final newline, a reciprocal pair, a zero rate, a self rate
+PriceLines == <<"P 2024/01/01 EUR 1.10 USD", "P 2024-02-01 EUR 1,234.5 JPY", "P 2024/02/10 CHF 0.95 EUR", "P 2024/03/01 USD 0.9 EUR",
+                "P 2023/06/01 JPY 0.0062 CHF", "P 2024/01/15 EUR 0 USD", "P 2024/01/20 USD 1 USD", "P 2024/02/20 EUR -1.2 USD">>
+RECURSIVE JoinLines(_, _, _)
+JoinLines(ls, nl, i) == IF i > Len(ls) THEN "" ELSE ls[i] \o nl \o JoinLines(ls, nl, i + 1)
+PriceSeedTexts == {JoinLines(PriceLines, "\n", 1), JoinLines(PriceLines, "\r\n", 1), JoinLines(PriceLines, "\n\n", 1),
+                   JoinLines(SubSeq(PriceLines, 1, 3), "\n", 1) \o "P 2024/04/01 EUR 1.3 USD",
+                   "\n\n" \o JoinLines(SubSeq(PriceLines, 1, 2), "\n", 1) \o "\n\n"}
+              \cup {PriceLines[i] \o "\n" : i \in 1..Len(PriceLines)}
+PriceAlphabet == {";", "#", "P ", "P", " ", "  ", "\t", "\n", "\r", "\r\n", ",", ".", "-", "+", "/", "0", "9", "(", ")", "@", "=", "{", "2024/01/01", "2024-13-01", "EUR", "\"a b\"",
+                  "é", "日本", "　", "́", "﻿", "⟦NUL⟧", "⟦EMOJI⟧", "1e5", "0.000001"}
+
 Alphabet == {";", "#", "*", "!", "(", ")", "{", "}", "{{", "}}", "[", "]", "@", "@@", "=", "  ", "\t", "\n", "\r", "\r\n", ",", ".", "-", "+", "/", ":", "::",
              "0", "9", "include ", "account ", "commodity ", "apply tag ", "end apply tag", "2024/01/01", "    alias ", "    format ", "P ",
              "é", "日本", "　", "́", "﻿", "​", "⟦NUL⟧", "⟦EMOJI⟧", " ", "�", " "}
 MCNestDepths == {1, 10, 100, 1000, 5000, 20000}
+NoDepths == {}
 
 \* history-free state space: one line per distinct text
-Emit == steps > 0 => PrintT(<<"REPLAY", ToJson([module |-> "Totality", op |-> lastop, steps |-> steps, text |-> text])>>)
-EmitSeeds == PrintT(<<"REPLAY", ToJson([module |-> "Totality", op |-> lastop, steps |-> steps, text |-> text])>>)
+Emit == steps > 0 => PrintT(<<"REPLAY", ToJson([module |-> "Totality", kind |-> Kind, op |-> lastop, steps |-> steps, text |-> text])>>)
+EmitSeeds == PrintT(<<"REPLAY", ToJson([module |-> "Totality", kind |-> Kind, op |-> lastop, steps |-> steps, text |-> text])>>)
 =============================================================================
